@@ -78,7 +78,8 @@ class C04(HeapCheck):
         "rename_empty_falls_back_to_id", "extend_duplicate_refused", "names_never_empty",
         "ctor_id_canonical", "ctor_malformed_id_replaced", "new_id_malformed_rejected",
         "new_id_canonical", "canonical_nonempty", "ids_canonical_after_any_history",
-        "ctor_op_canonical", "new_id_op_canonical", "cleared_name_is_canonical_id"]]
+        "ctor_op_canonical", "new_id_op_canonical", "cleared_name_is_canonical_id",
+        "names_never_empty_of_canonical"]]
     quick_n = 1200
     thorough_n = 30000
     trusted_base = [
